@@ -68,7 +68,22 @@ type aggSession struct {
 	fuzzyAccepted bool
 }
 
+// aggKeyMode 1 ("keymode" in the plan): 5-tuples come in pairs that differ in their source port
+// only - same addresses, same protocol, and the protocol is not always TCP (ICMP, ICMPv6, SCTP, GRE,
+// UDP too). Every distinct 5-tuple is a flow of its own whatever the protocol number is.
+var aggKeyMode int
+
+var aggPairProto = []uint8{1, 58, 132, 47, 17, 6}
+
 func aggKeyOf(k int, v6 bool) intermediate.FlowKey {
+	if aggKeyMode == 1 {
+		p := k / 2
+		proto := aggPairProto[p%len(aggPairProto)]
+		if v6 {
+			return intermediate.FlowKey{SourceAddress: net.ParseIP(fmt.Sprintf("2001:db8::%x", 0x10+p)).String(), DestinationAddress: net.ParseIP(fmt.Sprintf("2001:db8::%x", 0x80+p)).String(), Protocol: proto, SourcePort: uint16(1000 + k), DestinationPort: 443}
+		}
+		return intermediate.FlowKey{SourceAddress: fmt.Sprintf("10.1.0.%d", 1+p), DestinationAddress: fmt.Sprintf("10.2.0.%d", 1+p), Protocol: proto, SourcePort: uint16(1000 + k), DestinationPort: 443}
+	}
 	if v6 {
 		return intermediate.FlowKey{SourceAddress: net.ParseIP(fmt.Sprintf("2001:db8::%x", 0x10+k)).String(), DestinationAddress: net.ParseIP(fmt.Sprintf("2001:db8::%x", 0x80+k)).String(), Protocol: 6, SourcePort: uint16(1000 + k), DestinationPort: 443}
 	}
@@ -78,6 +93,7 @@ func aggKeyOf(k int, v6 bool) intermediate.FlowKey {
 func newAggSession(env *Env, prop string) (*aggSession, error) {
 	pl := env.Plan
 	s := &aggSession{env: env, prop: prop, msgCh: make(chan *entities.Message)}
+	aggKeyMode = int(cfgOr(pl, "keymode", 0))
 	nk := int(cfgOr(pl, "keys", 2))
 	for k := 0; k < nk; k++ {
 		s.keyCat = append(s.keyCat, int(cfgOr(pl, fmt.Sprintf("cat%d", k), catIntra)))
@@ -204,7 +220,7 @@ func corrValues(key, node, cat int, v6 bool, seed int64) map[string]string {
 	m["egressNetworkPolicyRuleAction"] = fmt.Sprint(egr)
 	m["ingressNetworkPolicyRulePriority"] = "0"
 	if dst || bit(8) {
-		m["ingressNetworkPolicyRulePriority"] = fmt.Sprint([]int{100 + key + 10*node, 256 * (1 + key + 4*node), 65536 * (1 + key + 4*node), 1<<24 + key + 8*node}[(h>>12)%4])
+		m["ingressNetworkPolicyRulePriority"] = fmt.Sprint([]int{100 + key + 10*node, 256 * (1 + key + 4*node), 65536 * (1 + key + 4*node), 1<<24 + key + 8*node, -1 - key - 4*node, -2147483648 + node}[(h>>12)%6])
 	}
 	return m
 }
@@ -995,7 +1011,7 @@ func (s *aggSession) opQuery(op plan.Op) {
 	}
 	recs := s.ap.GetRecords(fkp)
 	s.env.Count("probe.query_all_or_partial_key", 1)
-	if fkp == nil || fkp.Protocol == 6 {
+	if fkp == nil || (fkp.Protocol == 6 && aggKeyMode == 0) {
 		if len(recs) != len(s.model.Flows) {
 			s.env.Violate("c05-flow-count", "query", "GetRecords(%v) returned %d records, %d flows are held", fkp, len(recs), len(s.model.Flows))
 		}
